@@ -30,6 +30,12 @@ type c04Case struct {
 	Chain     []c04Icpt `json:"chain"`
 	StmtSteps [][2]int  `json:"stmt_steps,omitempty"` // predicted (line, col) of each statement step
 	ExprSteps [][2]int  `json:"expr_steps,omitempty"`
+	// ExprCore: the expression positions that hang directly on a statement
+	// (initialiser, expression statement, return value, condition, for-header
+	// part) - every parser has to parse an expression there.  TokStarts: the
+	// start of every token of the source.
+	ExprCore  [][2]int `json:"expr_core,omitempty"`
+	TokStarts [][2]int `json:"tok_starts,omitempty"`
 	Mode      Mode      `json:"mode"`
 	// Builder history: Split > 0 installs only Chain[:Split] before the first
 	// parsers are built and the rest afterwards; Builds is the number of parsers
@@ -339,7 +345,37 @@ func c04CheckRun(c c04Case, base, got c04Run, chain []c04Icpt, rec *evid.Recorde
 		if f := cmp("statement", sStarts, c.StmtSteps, kStmt); f != nil {
 			return f
 		}
-		if f := cmp("expression", eStarts, c.ExprSteps, kExpr); f != nil {
+		// Which positions inside an expression the parser treats as parse steps of
+		// their own (group interiors, member names, operands ...) is its own
+		// business; what the property fixes is: once per step, in installation order
+		// (checked above), on the first token of a construct of the source, and -
+		// no expression can be parsed without a step - at least at the positions
+		// where a statement holds an expression.
+		if kExpr > 0 && c.ExprCore != nil {
+			tokAt := map[[2]int]bool{}
+			for _, p := range c.TokStarts {
+				tokAt[p] = true
+			}
+			k := 0
+			prev := [2]int{-1, -1}
+			for i, st := range eStarts {
+				pos := [2]int{st.line, st.col}
+				if !tokAt[pos] {
+					return failf("expression step %d: interceptors saw current token %q at %d:%d, which is not the start of a token of the source\nchain %v\nsrc %q", i, st.lit, st.line, st.col, c.Chain, c.Src)
+				}
+				if pos[0] < prev[0] || (pos[0] == prev[0] && pos[1] < prev[1]) {
+					return failf("expression step %d at %d:%d comes after a step at %d:%d: steps went backwards\nchain %v\nsrc %q", i, st.line, st.col, prev[0], prev[1], c.Chain, c.Src)
+				}
+				prev = pos
+				if k < len(c.ExprCore) && pos == c.ExprCore[k] {
+					k++
+				}
+			}
+			if k < len(c.ExprCore) {
+				return failf("the expression at %d:%d hangs directly on a statement but no expression interceptor ran with its first token as current token\nlogged %v\nchain %v\nsrc %q", c.ExprCore[k][0], c.ExprCore[k][1], c04Pos(eStarts), c.Chain, c.Src)
+			}
+		} else if f := cmp("expression", eStarts, c.ExprSteps, kExpr); f != nil {
+			// replay files written before ExprCore existed
 			return f
 		}
 	}
@@ -435,18 +471,24 @@ func c04Gen(t *rapid.T, rec *evid.Recorder) c04Case {
 		if tk.ExprStart {
 			c.ExprSteps = append(c.ExprSteps, [2]int{tk.Line, tk.Col})
 		}
+		if tk.ExprCore {
+			c.ExprCore = append(c.ExprCore, [2]int{tk.Line, tk.Col})
+		}
+		if tk.Rendered != "" && tk.Kind != layout.EOF {
+			c.TokStarts = append(c.TokStarts, [2]int{tk.Line, tk.Col})
+		}
 	}
 	if r.Intn(4, "malformed") == 0 {
 		c.Src = mutateTokens(r, toks)
 		c.Valid = false
-		c.StmtSteps, c.ExprSteps = nil, nil
+		c.StmtSteps, c.ExprSteps, c.ExprCore, c.TokStarts = nil, nil, nil, nil
 		c.Mode = allModes[r.Intn(4, "mode")]
 	} else if r.Intn(8, "prefixbytes") == 0 {
 		// bytes that other tools treat specially at the start of a file (the lexer
 		// has no notion of them: they are ordinary - illegal - input)
 		c.Src = []string{"\xef\xbb\xbf", "#!/usr/bin/env xjs\n", "\xfe\xff", "\x00", "\xc2\xa0"}[r.Intn(5, "prefixkind")] + c.Src
 		c.Valid = false
-		c.StmtSteps, c.ExprSteps = nil, nil
+		c.StmtSteps, c.ExprSteps, c.ExprCore, c.TokStarts = nil, nil, nil, nil
 		rec.Class("input:special-prefix-bytes")
 	}
 	kinds := []string{"tok", "stmt", "expr", "expr-re", "stmt-re"}
